@@ -322,6 +322,54 @@ func c11Boundary(res *vlib.Result, viaHandshake bool) {
 	}
 }
 
+// c11Fallback: both sides list TOKEN and SSL. When the token exchange fails and the
+// handshake then completes through SSL (which establishes no client identity), nothing
+// of the failed token - in particular its subject - may end up as the session's identity.
+func c11Fallback(res *vlib.Result, v c11Tok) {
+	res.Evals++
+	cc := baseCfg(security.SecurityRequired, security.SecurityNever, []security.AuthMethod{mTOK, security.AuthSSL}, nil, false)
+	sc := baseCfg(security.SecurityRequired, security.SecurityNever, []security.AuthMethod{mTOK, security.AuthSSL}, nil, true)
+	cc.Token, cc.IssuerKeys, sc.TokenMaxAge = v.tok, nil, c11MaxAge
+	r := hsRun(hsOpts{ClientCfg: cc, ServerCfg: sc, App: true})
+	if r.S.Neg != nil {
+		security.GetSessionCache().Invalidate(r.S.Neg.SessionId)
+	}
+	if r.S.Panic != "" || r.C.Panic != "" {
+		res.Violate("C11/panic/fallback", "token %s: %s%s", v.name, r.S.Panic, r.C.Panic)
+		return
+	}
+	if r.S.Err != nil || r.S.Neg == nil {
+		res.Outcome("fallback-handshake-failed")
+		return
+	}
+	res.Nontrivial++
+	valid, sub, why := refVerify(v.tok, time.Now().Unix())
+	method := string(r.S.Neg.NegotiatedAuth)
+	// the subject the (possibly invalid) token names
+	claimed := ""
+	if parts := strings.Split(v.tok, "."); len(parts) == 3 {
+		if pb, err := base64.RawURLEncoding.DecodeString(parts[1]); err == nil {
+			var c map[string]any
+			if json.Unmarshal(pb, &c) == nil {
+				claimed, _ = c["sub"].(string)
+			}
+		}
+	}
+	if method == "TOKEN" {
+		if !valid {
+			res.Violate("C11/server-accepts-invalid-token/fallback/"+v.name, "token %s (%s) authenticated by TOKEN", v.name, why)
+		} else if r.S.Neg.User != userOf(sub) {
+			res.Violate("C11/identity-not-from-token/fallback/"+v.name, "subject %q, recorded %q", sub, r.S.Neg.User)
+		}
+		res.Outcome("fallback-token-succeeded")
+		return
+	}
+	if !valid && claimed != "" && r.S.Neg.User == userOf(claimed) {
+		res.Violate("C11/identity-from-failed-token/"+v.name, "token %s is not valid (%s) and the handshake completed through %s, yet the server recorded the token's subject %q as the session's user", v.name, why, method, r.S.Neg.User)
+	}
+	res.Outcome("fallback-completed-by-" + method)
+}
+
 // AKEP2 message positions in a TOKEN handshake (frame index per direction).
 const (
 	c11Step1 = 2 // c2s
@@ -609,7 +657,7 @@ func c11Verify(res *vlib.Result, label, class, tok string) {
 func C11Plan() *vlib.Plan {
 	p := &vlib.Plan{
 		Property: "C11", Level: "fault_enumeration",
-		Rule:   "E-FAULT: (1) 20 token variants and every single-bit flip of a valid token string, each through a real client/server TOKEN handshake (no cipher, so the AKEP2 result is the result); (2) for each of the three AKEP2 messages: every byte offset (header and payload) x {^01,^80}, truncation at every 8th byte, 1/8 trailing bytes appended, for step 1 a field-aware substitution of the claimed client identity by {bob, empty, +1 char}, and field-aware alterations of every field of every message (status := 1/-1/2/256; each proof, nonce and nonce echo := empty / first byte only / last byte dropped / one zero byte added / all zero / length 0 or length-1 with the bytes kept; each identity echo := empty / bob / +1 char); (3) VerifyIDToken on the same variants and bit flips; (4) an independent scripted AKEP2 client (own HKDF/HMAC arithmetic) against the real server: 20 token variants (incl. those cedar's client refuses to send) x claimed identity {the subject, bob, root} x proof {honest, empty, wrong, computed over the identity the server echoed} x RB echo {honest, empty, wrong} x {no, one} trailing byte; (5) time claims AT their limits (exp = now-1 / now / now+1, iat = now / now-max / now-max-1) through VerifyIDToken and through the scripted client, each call aligned on a wall-clock second and kept only if the clock still shows that second afterwards. Oracle: independent HKDF+HMAC verifier with the same time rules (variants sit 120 s away from the limits); server success => token valid and no client message altered outside the claimed-identity field; client success => server message unaltered; recorded user = token subject. Non-trivial = the mutated element reached the receiving side.",
+		Rule:   "E-FAULT: (1) 20 token variants and every single-bit flip of a valid token string, each through a real client/server TOKEN handshake (no cipher, so the AKEP2 result is the result); (2) for each of the three AKEP2 messages: every byte offset (header and payload) x {^01,^80}, truncation at every 8th byte, 1/8 trailing bytes appended, for step 1 a field-aware substitution of the claimed client identity by {bob, empty, +1 char}, and field-aware alterations of every field of every message (status := 1/-1/2/256; each proof, nonce and nonce echo := empty / first byte only / last byte dropped / one zero byte added / all zero / length 0 or length-1 with the bytes kept; each identity echo := empty / bob / +1 char); (3) VerifyIDToken on the same variants and bit flips; (4) an independent scripted AKEP2 client (own HKDF/HMAC arithmetic) against the real server: 20 token variants (incl. those cedar's client refuses to send) x claimed identity {the subject, bob, root} x proof {honest, empty, wrong, computed over the identity the server echoed} x RB echo {honest, empty, wrong} x {no, one} trailing byte; (5) time claims AT their limits (exp = now-1 / now / now+1, iat = now / now-max / now-max-1) through VerifyIDToken and through the scripted client, each call aligned on a wall-clock second and kept only if the clock still shows that second afterwards; (6) every token variant with TOKEN and SSL listed on both sides: when the token exchange fails and SSL completes the handshake, the failed token's subject must not become the session's identity. Oracle: independent HKDF+HMAC verifier with the same time rules (variants sit 120 s away from the limits); server success => token valid and no client message altered outside the claimed-identity field; client success => server message unaltered; recorded user = token subject. Non-trivial = the mutated element reached the receiving side.",
 		Assume: []string{"base64 decoding is shared with the code (non-canonical trailing bits that decode identically are the same token)", "time-dependent variants are 120 s away from the boundary"},
 	}
 	p.Gen = func(tier string, yield func(vlib.Case)) {
@@ -638,6 +686,14 @@ func C11Plan() *vlib.Plan {
 					}
 				}
 				res.Sample = v.name
+				return res
+			}})
+		}
+		for _, v := range vars {
+			v := v
+			yield(vlib.Case{ID: "fallback-to-ssl/" + v.name, Run: func() *vlib.Result {
+				res := &vlib.Result{}
+				c11Fallback(res, v)
 				return res
 			}})
 		}
